@@ -11,6 +11,7 @@ mod driver;
 mod findings;
 mod props;
 mod space;
+mod subject;
 mod worker;
 
 use crate::core::Tier;
